@@ -550,7 +550,7 @@ func init() {
 					return 2
 				}
 				return 3
-			}, MaxExec: schedCap(6000)}
+			}, MaxExec: schedCapT(6000, 60000)}
 		},
 		"every client request sequence up to a depth (binary and text protocol) is played twice on fresh two-node clusters built from real node copies (leader n0, follower n1 synced over the in-memory network): once against the leader, once through the follower's port; replies, the leader's final holds and the follower's converged holds must be equal. With the replication stream held, traffic sent to the follower must leave the follower's own holds unchanged. A node forced into follower / sync / config / vote state without a leader address must refuse every request and change nothing. distinct = distinct reply traces",
 		[]string{"message handlers of the forwarding path run under the default schedule (no interleaving exploration inside handlers)", "concurrent-check flag (local probable refusal on a follower) is not in the alphabet", "role change between two requests of one connection is covered by the forced-state runs (state set before the first request)"})
